@@ -67,6 +67,19 @@ def structure(h, rename):
             "meta": json.loads(json.dumps(d.metadata)),
         }
     links = Counter(((rename[s.node.idx], s.offset), (rename[t.node.idx], t.offset)) for s, t in h.links())
+    # the same links as the per-port queries report them (a link the store holds but no port query shows,
+    # or the other way round, is a difference too)
+    for n in h:
+        seen_in = Counter()
+        for ip, srcs in h.incoming_links(n):
+            for sp in srcs:
+                seen_in[((rename[sp.node.idx], sp.offset), (rename[n.idx], ip.offset))] += 1
+        seen_out = Counter()
+        for op_, dsts in h.outgoing_links(n):
+            for dp in dsts:
+                seen_out[((rename[n.idx], op_.offset), (rename[dp.node.idx], dp.offset))] += 1
+        nodes[rename[n.idx]]["in_links"] = sorted(seen_in.elements())
+        nodes[rename[n.idx]]["out_links"] = sorted(seen_out.elements())
     return nodes, links
 
 
@@ -111,6 +124,14 @@ def check_c02(h):
             lost = sorted((l1 - l2).elements())[:3]
             extra = sorted((l2 - l1).elements())[:3]
             return ("violation", f"links differ after the round trip: lost {lost} extra {extra}")
+    if not ambiguous:
+        # the links as the port queries of the two HUGRs report them
+        for i in sorted(n1):
+            for k in ("in_links", "out_links"):
+                if n1[i][k] != n2[i][k]:
+                    a, b = Counter(n1[i][k]), Counter(n2[i][k])
+                    return ("violation", f"node {order[i]} (listed at {i}): {k} reported by the port queries differ after the round trip: "
+                                         f"only before {sorted((a - b).elements())[:3]} only after {sorted((b - a).elements())[:3]}")
     if ambiguous:
         return ("known", "C02-value-link-at-order-positions", "a value link attached at exactly the order-port positions of both operations is indistinguishable from a state-order edge on the wire")
     if order != sorted(order):
